@@ -282,6 +282,13 @@ def _work(item):
                 check_layouts(H, out, stats)
                 check_drawing(H, out, stats, "quick")
                 out[k:] = [(m, "[same object after remove+re-add of its first node and edge] " + msg) for m, msg in out[k:]]
+                # one node replaced by a node with a new label (same counts, another node set): default positions and
+                # anything else kept per node label must be recomputed
+                if F.rename(H) is not None:
+                    k = len(out)
+                    check_layouts(H, out, stats)
+                    check_drawing(H, out, stats, "quick")
+                    out[k:] = [(m, "[same object after one node was replaced by a node with a new label] " + msg) for m, msg in out[k:]]
         except RecursionError:
             raise
         except Exception as e:  # noqa: BLE001
@@ -297,7 +304,7 @@ def family(tier):
     reps = F.representatives()
     base = list(F.undirected([1, 2, 3, 4], 3))
     pick = base[::31] if q else base[::3]
-    for s in reps + pick:
+    for s in reps + pick + F.wide():
         items.append(("both", s))
     for k, s in enumerate(pick[:: (2 if q else 1)]):
         m = len(s["edges"])
